@@ -148,7 +148,7 @@ def uuid_fields(msg):
                     w = b.WhichOneof("value")
                     if w:
                         f("block.uuid", getattr(b, w), "uuid", "node")
-                for k in x.symbolic_expressions:
+                for k in sorted(x.symbolic_expressions):   # map order differs between copies
                     e = x.symbolic_expressions[k]
                     w = e.WhichOneof("value")
                     if w == "addr_const":
